@@ -281,6 +281,11 @@ def gen_cases(rng, tier):
         out.append(case("secp-sigv-mode-switch", "sig_verify", "secp", sg, sec1(Q, True), msg + fl.to_bytes(4, "little"), False))
         out.append(case("secp-sigv-mode-switch", "sig_verify", "secp", sg, sec1(Q, True), msg, True))
         out.append(case("secp-sigv-flag-changed", "sig_verify", "secp", sg[:-1] + bytes([fl ^ 0x80]), sec1(Q, True), msg, False))
+        if i == 0 or T:
+            # every single-bit change of the trailing sighash byte (the WHOLE byte is committed to: a verifier that masks it
+            # to base type + ANYONECANPAY accepts 0x21 / 0x41 for 0x01)
+            for bit in range(8):
+                out.append(case("secp-sigv-flag-bit%d" % bit, "sig_verify", "secp", sg[:-1] + bytes([fl ^ (1 << bit)]), sec1(Q, True), msg, False))
         out.append(case("secp-sigv-msg-changed", "sig_verify", "secp", sg, sec1(Q, True), msg + b"\0", False))
         out.append(case("secp-sigv-high-s", "sig_verify", "secp", ref_der(r, N - s) + bytes([fl]), sec1(Q, True), msg, False))
         if i == 0 or T:
@@ -404,6 +409,9 @@ def gen_cases(rng, tier):
                     out.append(case(cname + "-sigv-msg-ends-with-flag", "sig_verify", cname, ref_der(r3, s3) + bytes([fl]), sec1(Q, True), m3, False))
                     out.append(case(cname + "-sigv-msg-ends-with-flag", "sig_verify", cname, ref_der(r3, s3) + bytes([fl]), sec1(Q, True), m3[:-4], False))
                 out.append(case(cname + "-sigv-wrong-flag", "sig_verify", cname, sg[:-1] + bytes([fl ^ 2]), sec1(Q, True), msg, False))
+                if dvn < 12:
+                    for bit in range(8):
+                        out.append(case(cname + "-sigv-flag-bit%d" % bit, "sig_verify", cname, sg[:-1] + bytes([fl ^ (1 << bit)]), sec1(Q, True), msg, False))
                 if dvn < (40 if not T else 400):
                     dvn += 1
                     for nm, der in der_variants(r2, s2, n):
